@@ -789,6 +789,11 @@ class PathController:
         """truth value to assume for a degeneracy test (x == c, x <= tiny, x <= eps*y and boolean combinations), else None"""
         op = cond.op
         if op in ('eq', 'ne') and cond.args[0].sort == 'R':
+            # an input symbol compared with a constant (e.g. a parameter tested against exactly 0) is a case distinction of the code, not a
+            # geometric degeneracy: both sides are explored
+            a, b = cond.args
+            if (a.op == 'var' and S.cval(b) is not None) or (b.op == 'var' and S.cval(a) is not None):
+                return None
             return op == 'ne'
         if op in ('le', 'lt', 'ge', 'gt') and cond.args[0].sort == 'R':
             x, y = cond.args
